@@ -6,7 +6,7 @@ import sys
 
 REPO = os.environ.get("PDPVERIF_REPO", "/repo")
 VERIF = os.path.dirname(os.path.dirname(os.path.abspath(__file__)))
-BUILD = os.path.join(VERIF, "build")
+BUILD = os.environ.get("PDPVERIF_BUILD") or os.path.join(VERIF, "build")
 
 
 class Skip(Exception):
